@@ -52,6 +52,9 @@ func routeInstances(tier string) []explore.Params {
 				out = append(out, explore.Params{"pat": a, "raw": raw, "notime": "1"})
 				out = append(out, explore.Params{"pat": a, "raw": raw, "ids": "261", "notime": "1"}) // 0x105: more than one non-zero byte
 			}
+			for _, a := range []string{"hA0", "pA0", "hD0", "pD0", "hA0,pA0"} {
+				out = append(out, explore.Params{"pat": a, "raw": raw, "notime": "1", "probe": "1"})
+			}
 			out = append(out, explore.Params{"pat": "hA0,pA0", "raw": raw, "ids": "5,261", "notime": "1"}, explore.Params{"pat": "hA0,hA0", "raw": raw, "ids": "5,261", "notime": "1"}, explore.Params{"pat": "pD0,pD0", "raw": raw, "ids": "5,261", "notime": "1"})
 		}
 		return out
